@@ -14,13 +14,21 @@ def instances(tier):
     q = tier == 'quick'
     return [
         {"label": "abandon-at-every-event", "cfg": PLAIN,
-         "consts": dict(HttpItems='HttpAll', Items='C13Items', Cfg='CfgPlain', MaxItems=2 if q else 3, ChunkMax=2,
+         "consts": dict(HttpItems='HttpAll', Items='C13Items', Cfg='CfgPlain', MaxItems=2, ChunkMax=2,
                         Faults={"refused", "recv_error"}, Reacts={"none", "close"}, ReactAt={"connected", "ready", "text", "closing"},
                         MaxReacts=1, AbandonAt=EVENTS)},
         {"label": "abandon-at-housekeeping-events", "cfg": TIMERS,
          "consts": dict(HttpItems='HttpOk', Items='C13Items', Cfg='CfgTimers', MaxItems=1, ChunkMax=1, MaxIdle=3, Dts={0, 5},
                         Reacts={"none", "close"}, ReactAt={"ready", "poll"}, MaxReacts=1, AbandonAt=EVENTS)},
-    ]
+        {"label": "abandon-after-failed-write", "cfg": PLAIN,
+         "consts": dict(HttpItems='HttpOk', Items='C13Items', Cfg='CfgPlain', MaxItems=1, ChunkMax=1,
+                        Faults={"write_error"}, Reacts={"none", "send", "close"}, ReactAt={"ready", "text", "ping"},
+                        MaxReacts=1, AbandonAt=EVENTS)},
+    ] + ([] if q else [
+        {"label": "abandon-deep-simulation", "cfg": TIMERS, "simulate": "num=30000", "depth": 300,
+         "consts": dict(HttpItems='HttpAll', Items='C13Items', Cfg='CfgTimers', MaxItems=5, ChunkMax=3, MaxIdle=3, Dts={0, 2, 5},
+                        Faults={"refused", "recv_error"}, Reacts={"none", "send", "close"}, ReactAt={"connected", "ready", "text", "poll", "closing"},
+                        MaxReacts=2, AbandonAt=EVENTS)}])
 
 
 def variants(sc, b):
